@@ -97,6 +97,23 @@ def run(chk):
             elif flags:
                 chk.drift("L3-parse", "%s followed %s" % (rec["enum"], sorted(flags)), {"in": rec["in"], "st": rec["st"], "kind": rec["kind"]})
     total_calls += len(pcases)
+    # ... and when a reply arrives in pieces - the class byte alone, class and instruction, the header, then the rest: the transport
+    # hands the parsers the packet that was sent (same control field, same bytes), however it was cut
+    behs = []
+    for a in (0, 1, 2, 5, 37, 254, 255, 300):
+        for piece in (1, 2, 3, 4):
+            behs.append({"lens": [a, 1, a], "cut": 10 ** 9, "reads": [[0, piece]] * ((2 * a + 30) // piece + 12)})
+    bpath, opath = os.path.join(wd, "pieces.ndjson"), os.path.join(wd, "pieces.out.ndjson")
+    vlib.write_ndjson(bpath, behs)
+    vlib.harness_run(binary, ["transport-replay", bpath, opath])
+    for b, o in zip(behs, vlib.read_ndjson(opath)):
+        if o["panic"] or o["delivered"] != b["lens"] or not o["same"]:
+            chk.violation("pieces:%s" % ("panic" if o["panic"] else "dispatch"),
+                          "packets with bodies of %s bytes arriving %d byte(s) at a time were read as %s%s: what reaches the reply parsers is not the "
+                          "packet that was sent" % (b["lens"], b["reads"][0][1], o["delivered"], "" if o["same"] else " with different content"),
+                          {"behaviour": {"lens": b["lens"], "piece": b["reads"][0][1]}, "observed": {k2: o[k2] for k2 in ("delivered", "same", "panic")}})
+    total_calls += len(behs)
+    chk.cov["replies_in_pieces"] = len(behs)
     chk.cov["followed_cases"] = len(pcases)
     chk.cov["traces_validated_against_impl"] = total_calls
     chk.cov["evaluations"] = total_calls
